@@ -50,6 +50,91 @@ func propC19(w *World, r *Report) {
 	RunNarrowSucc(w, r, fns, br19)
 	RunNarrowSuccControl(r)
 	r.Floor("goroutine", 2)
+	// "never a panic": index and slice expressions of the parser and the lexer
+	{
+		r.Rule("bounds (parser): every index, slice and make expression in the functions of parser.go and lexer.go reachable from builder.Parse is within bounds, by the linear prover (dominating checks — including tests whose failing branch calls p.fatal, which never returns —, type ranges, loop induction) or a reviewed entry; a run-time panic there would escape Parse's recovery, which converts *parseError only")
+		var pf []*ssa.Function
+		for _, fn := range srcFuncsReachable(w, mustFuncs(w, r, "opentype/gtab/builder.Parse")) {
+			if fnPkgPath(fn) != builderPkg {
+				continue
+			}
+			file := w.Fset.Position(fn.Pos()).Filename
+			if strings.HasSuffix(file, "/parser.go") || strings.HasSuffix(file, "/lexer.go") {
+				pf = append(pf, fn)
+			}
+		}
+		sort.Slice(pf, func(i, j int) bool { return fnName(pf[i]) < fnName(pf[j]) })
+		r.Conds["covtable-dense"] = condCovTableDense(w)
+		RunBounds(w, r, "bounds", br19, pf)
+		r.Floor("bounds", 250)
+	}
+}
+
+// condCovTableDense: builder.makeCoverageTable hands out the coverage indices
+// 0..n-1: its only map update stores the range index of a loop over the
+// de-duplicated key list under the key at that index, and the map is the one
+// returned.
+func condCovTableDense(w *World) func() (bool, string) {
+	return func() (bool, string) {
+		fn := w.Func("opentype/gtab/builder.makeCoverageTable")
+		if fn == nil {
+			return false, "builder.makeCoverageTable does not resolve"
+		}
+		n := 0
+		for _, b := range fn.Blocks {
+			for _, in := range b.Instrs {
+				mu, ok := in.(*ssa.MapUpdate)
+				if !ok {
+					continue
+				}
+				n++
+				// value: the loop counter (rangeindex phi + 1 form)
+				idx := mu.Value
+				if cv, ok := idx.(*ssa.Convert); ok {
+					idx = cv.X
+				}
+				// key: element of a slice at that same index
+				ld, ok := mu.Key.(*ssa.UnOp)
+				if !ok {
+					return false, "the key stored at " + w.Pos(mu.Pos()) + " is not an element of the key list"
+				}
+				ia, ok := ld.X.(*ssa.IndexAddr)
+				if !ok || ia.Index != idx {
+					return false, "the index stored at " + w.Pos(mu.Pos()) + " is not the position of its key in the key list"
+				}
+				// the list is the result of the de-duplication helper
+				list := ia.X
+				if ld2, ok := list.(*ssa.UnOp); ok && ld2.Op == token.MUL {
+					// the list lives in a cell (it is captured by the sort closure): its last assignment counts
+					if cell, ok := ld2.X.(*ssa.Alloc); ok {
+						var last ssa.Value
+						single := true
+						for _, b2 := range fn.Blocks {
+							for _, in2 := range b2.Instrs {
+								if st, ok := in2.(*ssa.Store); ok && st.Addr == ssa.Value(cell) {
+									if b2 != fn.Blocks[0] {
+										single = false
+									}
+									last = st.Val
+								}
+							}
+						}
+						if single && last != nil {
+							list = last
+						}
+					}
+				}
+				c, ok := list.(*ssa.Call)
+				if !ok || c.Call.StaticCallee() == nil || !strings.HasPrefix(c.Call.StaticCallee().Name(), "unique") {
+					return false, "the key list ranged over at " + w.Pos(mu.Pos()) + " is not the result of unique(): equal keys would leave gaps in the index range"
+				}
+			}
+		}
+		if n != 1 {
+			return false, fmt.Sprintf("makeCoverageTable has %d map updates, expected one", n)
+		}
+		return true, "indices are positions in the sorted, de-duplicated key list"
+	}
 }
 
 func findFunc(files []*ast.File, name string) *ast.FuncDecl {
@@ -657,7 +742,9 @@ func RunUnsignedCountdown(w *World, r *Report, fns []*ssa.Function) {
 			t := info.TypeOf(inc.X)
 			b, isB := t.Underlying().(*types.Basic)
 			unsigned := isB && b.Info()&types.IsUnsigned != 0
-			if unsigned && be.Op == token.GEQ && types.ExprString(be.X) == types.ExprString(inc.X) {
+			// counter >= bound; with a non-constant bound the comparison is normalised to bound <= counter
+			ctr := types.ExprString(inc.X)
+			if unsigned && (be.Op == token.GEQ && types.ExprString(be.X) == ctr || be.Op == token.LEQ && types.ExprString(be.Y) == ctr) {
 				r.Fail("unsignedcountdown", key, w.Pos(fs.Pos()), fmt.Sprintf("down-counting loop on the unsigned variable %s with test %s: when the bound is 0 the test is always true and the counter wraps around (the loop never terminates)", types.ExprString(inc.X), types.ExprString(be)), nil)
 			} else {
 				r.OK("unsignedcountdown", key, w.Pos(fs.Pos()), "signed counter or strict test")
